@@ -205,6 +205,16 @@ def value_frames(client, state):
     integer, :status to classify the block, :method for HEAD / CONNECT) with empty, signed, padded, non-ASCII-digit,
     very long (beyond the interpreter's integer-conversion limit) and non-text values, in the positions where they are read."""
     out = []
+    if state == "skipped-id":
+        # well-formed frames that name the stream id this connection skipped (its first stream was 3): as a parent of a
+        # promise, and on its own
+        base = H.RESP if client else H.REQ
+        out = [[wire.headers(1, corpus.sb(base))], [wire.headers(1, corpus.sb(base), es=True)], [wire.data(1, b"x")],
+               [wire.rst_stream(1, 8)], [wire.window_update(1, 5)], [wire.priority(1, 3, 5, False)], [wire.continuation(1, corpus.sb(base))]]
+        if client:
+            out += [[wire.push_promise(1, 2, corpus.sb(H.REQ))], [wire.push_promise(3, 2, corpus.sb(H.REQ))],
+                    [wire.push_promise(1, 2, corpus.sb(H.REQ), eh=False), wire.continuation(1, b"")]]
+        return out
     if client:
         if state not in ("open", "hc-local", "two-streams", "reserved-remote"):
             return out
